@@ -405,6 +405,19 @@ func (v *Value) asFloat64() float64 {
 	return 0
 }
 
+// Equals is what == computes: an unset value equals nothing (not even another
+// unset value), anything else is equal when Compare finds no difference
+func (v *Value) Equals(b *Value) (bool, error) {
+	if v.Tag == ValueUnknown || b.Tag == ValueUnknown {
+		return false, nil
+	}
+	cmp, err := v.Compare(b)
+	if err != nil {
+		return false, err
+	}
+	return cmp == 0, nil
+}
+
 func (v *Value) Compare(b *Value) (int, error) {
 	// null comparisons
 	switch {
